@@ -39,6 +39,11 @@ def run(ctx, db, tier):
         witness.negative(ctx, 'C19.concept-neg', 'C19_neg.cpp', 'a with_allocator coroutine whose first parameter is not the allocator must not compile (plain operator new is private)')
 
 
+def _ptracer(db):
+    """helpers of a storage policy expanded in place, but not the allocation entry points of this or another policy (they are the anchors)"""
+    return htracer(db, extra=None) if False else Tracer(db, depth=3, inline_filter=lambda c, e, callee: is_helper(db, c, callee) and not re.search(r'::(alloc|dealloc)$', callee['nname']), maxvisit=2)
+
+
 UNDER_ALLOC = re.compile(r'^(operator new|cocls::\w+::alloc)$')
 UNDER_FREE = re.compile(r'^(operator delete|cocls::\w+::dealloc)$')
 
@@ -56,7 +61,7 @@ def trailers(ctx, db):
     rid = ctx.rule('C19.trailer', 'LINEAR+SIBLINGS', 'policies with a trailer: requested size = sz + k with k >= size of the trailer on every allocating path; the trailer lives at offset sz in alloc '
                    'and is read at offset sz in dealloc; an in-place write of the trailer is guarded by a comparison implying sz + 1 <= region size; sizes handed back equal sizes '
                    'requested; the learned size equals the allocated size', floor=6)
-    T = Tracer(db, depth=0)
+    T = _ptracer(db)
     for cls in ('cocls::reusable_storage_mtsafe', 'cocls::stack_storage', 'cocls::promise_extra_storage'):
         allocs = db.need(cls + '::alloc')
         deallocs = db.need(cls + '::dealloc')
@@ -115,8 +120,17 @@ def trailers(ctx, db):
             if f['key'] in seen and cls != 'cocls::promise_extra_storage':
                 continue
             seen.add(f['key'])
-            d = [e for e in f.events() if e.k == 'decl' and e.get('init') and lf(e['init']) is not None and lf(e['init']).get('SZ')]
-            ok = len(d) >= 1 and all(lf(e['init']).get('SZ') == 1 and lf(e['init']).get('', 0) == 0 and lf(e['init']).get('SIZEOF', 0) == 0 and lf(e['init']).get('param:ptr') == 1 for e in d)
+            forms = []
+            for tr in T.traces(f):
+                for e in tr:
+                    p_ = e.get('init') if e.k == 'decl' else (e.get('path') if e.k == 'return' and e.get('depth', 0) > 0 else None)
+                    try:
+                        l_ = lf(p_) if p_ else None
+                    except ValueError:
+                        l_ = None
+                    if l_ is not None and l_.get('SZ') and not UNDER_FREE.match('x'):
+                        forms.append(l_)
+            ok = len(forms) >= 1 and all(l_.get('SZ') == 1 and l_.get('', 0) == 0 and l_.get('SIZEOF', 0) == 0 and l_.get('param:ptr') == 1 for l_ in forms)
             ctx.ob(rid, f, f['key'], ok, '%s::dealloc reads the trailer at ptr + sz' % cls.split('::')[-1], desc='dealloc reads the trailer at another offset than alloc wrote it', inst=f['inst'])
     # promise_extra_storage: size handed back == size requested
     for f in db.need('cocls::promise_extra_storage::alloc'):
@@ -133,7 +147,7 @@ def trailers(ctx, db):
 
 def _is_trailer_write(f, tr, i):
     it = tr[i]
-    if it.k == 'write' and re.fullmatch(r'\*\(local:\w+(#\d+)?\)', it.get('path') or ''):
+    if it.k == 'write' and re.fullmatch(r'\*\((local:\w+(#\d+)?|call\([^()]*\))\)', it.get('path') or ''):
         return True
     if it.k == 'new' and it.get('placement'):
         return True
@@ -145,13 +159,14 @@ def _offset_of(f, tr, i):
     it = tr[i]
     var = None
     if it.k == 'write':
-        var = re.fullmatch(r'\*\((local:\w+)(#\d+)?\)', it.get('path') or '').group(1)
+        var = re.fullmatch(r'\*\((.*)\)', it.get('path') or '').group(1)
     elif it.k == 'new':
         var = (it['placement'][0].get('path') or '')
-    d = next((x for x in tr[:i] if x.k == 'decl' and x.get('var') == var), None)
-    if d is None or not d.get('init'):
+    # the address written to: follow locals and values returned by expanded helpers (owner_slot(p, sz) { return (char*)p + sz; })
+    addr, _ = origin_in_trace(tr, i, var)
+    if not addr or addr == var and not re.search(r'[-+]', addr):
         return None
-    form = lf(d['init'])
+    form = lf(addr)
     if form is None:
         return None
     form = dict(form)
@@ -167,20 +182,20 @@ def pairing(ctx, db):
                    'and releases the busy flag exactly on the other; stack_storage - flag 1 with ::operator new, flag 0 in place, dealloc deletes exactly on the flag-set edge; '
                    'reusable_storage - the old block is deleted before a larger one is allocated, and in the destructor and move-assignment; promise_extra_storage - one placement '
                    'construction in alloc, one explicit destructor call before the release in dealloc', floor=6)
-    T = Tracer(db, depth=0)
+    T = _ptracer(db)
     # mtsafe
     for f in db.need('cocls::reusable_storage_mtsafe::alloc')[:1]:
         bad = None
         for tr in [t for t in T.traces(f) if live(t)]:
             heap = any(it.k == 'call' and norm(it.get('callee')) == 'operator new' for it in tr)
-            own = [it for it in tr if it.k == 'write' and re.fullmatch(r'\*\(local:\w+\)', it.get('path') or '')]
+            own = [it for i_, it in enumerate(tr) if it.k == 'write' and _is_trailer_write(f, tr, i_)]
             ow = value_origin(f, own[-1].get('rhs')) if own else None
             marker = None
             ws = [it for it in tr if it.k == 'write' and (it.get('path') or '') == (own[-1].get('rhs') if own else None)]
             if ws:
-                marker = 'null' if ws[-1].get('const') == 0 else ('this' if ws[-1].get('rhs') == 'this' else ws[-1].get('rhs'))
+                marker = 'null' if (ws[-1].get('const') == 0 or (ws[-1].get('rhs') or '') in NULLS) else ('this' if ws[-1].get('rhs') == 'this' else ws[-1].get('rhs'))
             elif own:
-                marker = 'null' if own[-1].get('const') == 0 else own[-1].get('rhs')
+                marker = 'null' if (own[-1].get('const') == 0 or (own[-1].get('rhs') or '') in NULLS) else own[-1].get('rhs')
             if heap and marker != 'null':
                 bad = bad or 'a heap fallback block is tagged with an owner: dealloc would mark the shared block free instead of deleting this one'
             if not heap and marker != 'this':
@@ -210,7 +225,7 @@ def pairing(ctx, db):
         bad = None
         for tr in [t for t in T.traces(f) if live(t)]:
             heap = any(it.k == 'call' and norm(it.get('callee')) == 'operator new' for it in tr)
-            fl = [it for it in tr if it.k == 'write' and re.fullmatch(r'\*\(local:\w+\)', it.get('path') or '')]
+            fl = [it for i_, it in enumerate(tr) if it.k == 'write' and _is_trailer_write(f, tr, i_)]
             if not fl or fl[-1].get('const') != (1 if heap else 0):
                 bad = bad or 'the flag byte does not say whether the block came from the heap'
         ctx.ob(rid, f, f['key'], bad is None, 'stack_storage alloc: flag = 1 iff ::operator new' + ('' if not bad else ' -- ' + bad), desc=bad)
@@ -220,7 +235,7 @@ def pairing(ctx, db):
             flag = None
             for i_, it in enumerate(tr):
                 nt = null_test(tr, i_) if it.k == 'branch' else None
-                if nt and re.fullmatch(r'\*\(local:\w+\)', nt[0] or ''):
+                if nt and re.fullmatch(r'\*\((local:\w+(#\d+)?|call\([^()]*\))\)', nt[0] or ''):
                     flag = bool(nt[1])
             dels = [it for it in tr if it.k == 'call' and norm(it.get('callee')) == 'operator delete']
             if flag is None or (flag and len(dels) != 1) or (not flag and dels):
@@ -239,7 +254,7 @@ def pairing(ctx, db):
         ctx.ob(rid, f, f['key'], bad is None, 'reusable_storage alloc: delete old before new' + ('' if not bad else ' -- ' + bad), desc=bad)
     for name in ('cocls::reusable_storage::~reusable_storage', 'cocls::reusable_storage::operator='):
         for f in db.need(name)[:1]:
-            dl = [e for e in f.events() if e.k == 'call' and norm(e.get('callee')) == 'operator delete' and norm((e.get('args') or [{}])[0].get('field') or '') == 'cocls::reusable_storage::_ptr']
+            dl = [e for g_ in helper_bodies(db, f) if not re.search(r'::(alloc|dealloc)$', g_['nname']) for e in g_.events() if e.k == 'call' and norm(e.get('callee')) == 'operator delete' and norm((e.get('args') or [{}])[0].get('field') or '') == 'cocls::reusable_storage::_ptr']
             ctx.ob(rid, f, f['key'], len(dl) == 1, '%s releases the owned block once' % name.split('::')[-1], desc='%s does not release the owned block exactly once' % name)
     # a moved-from reusable_storage owns nothing: pointer AND capacity are reset together (a capacity left behind makes the next alloc of
     # the moved-from object skip its allocation and hand out the null block)
@@ -250,7 +265,7 @@ def pairing(ctx, db):
                 continue
             src = 'param:' + f['params'][0]['name']
             reset = set()
-            for e in f.events():
+            for e in [it for tr in T.traces(f) for it in tr]:
                 if e.k == 'call' and norm(e.get('callee') or '') == 'std::exchange' and (e.get('args') or [{}])[0].get('path', '').startswith(src + '.'):
                     reset.add(e['args'][0]['path'].split('.')[-1])
                 if e.k == 'write' and (e.get('path') or '').startswith(src + '.') and e.get('const') in (0,) or (e.k == 'write' and (e.get('path') or '').startswith(src + '.') and e.get('rhs') == 'nullptr'):
@@ -353,6 +368,14 @@ def routing(ctx, db):
             return o is not None and cs and o.get('id') == cs[0].get('id')
         ok = len(cs) == 1 and (cs[0].get('args') or [{}])[0].get('path') == 'param:sz' and (cs[0].get('recv') is None or re.fullmatch(r'param:\w+', cs[0].get('recv') or '')) and \
             (cs[0].get('use') == 'return' or (len(rets) == 1 and _from_alloc(rets[0])))
+        if not cs:
+            # through a helper of the class (alloc_frame(storage, sz) { return storage.alloc(sz); })
+            trs_ = [t for t in htracer(db).traces(f) if live(t)]
+            ok = bool(trs_)
+            for tr in trs_:
+                al = [it for it in tr if it.k == 'call' and norm(it.get('callee') or '').endswith('::alloc')]
+                ok = ok and len(al) == 1 and (al[0].get('args') or [{}])[0].get('path') == 'param:sz' and (al[0].get('recv') is None or bool(re.fullmatch(r'param:\w+', al[0].get('recv') or ''))) and \
+                    (origin_in_trace(tr, len(tr), ret_expr(tr))[0] or '').startswith('call(') and norm(al[0].get('callee')) in (origin_in_trace(tr, len(tr), ret_expr(tr))[0] or '')
         k = (f['key'], ok)
         if k in seen:
             continue
